@@ -62,6 +62,15 @@ pub fn problems(tier: Tier) -> Vec<(String, PProblem)> {
     all_families(tier).into_iter().flat_map(|(name, ps)| ps.into_iter().map(move |p| (name.to_string(), p))).collect()
 }
 
+/// Vicinity clustering is outside of the oracle's schedule replay: its problems are judged by the accounting rules only.
+pub fn problems_for(tier: Tier, scope: Scope) -> Vec<(String, PProblem)> {
+    let mut out = problems(tier);
+    if matches!(scope, Scope::Accounting) {
+        out.extend(family_cluster().into_iter().map(|p| ("cluster".to_string(), p)));
+    }
+    out
+}
+
 fn tolerance_for(family: &str) -> f64 {
     if family == "scale" { 1. } else { 0. }
 }
@@ -165,7 +174,7 @@ pub fn worker(ctx: &RunCtx, shard: usize, of: usize, extra: &Extra) -> Report {
         report.add_count("distinct_nontrivial", outcomes.len() as u64);
         return report;
     }
-    let problems = problems(ctx.tier);
+    let problems = problems_for(ctx.tier, scope);
     let cfgs = configs(ctx.tier);
     let mut outcomes: HashSet<String> = HashSet::new();
     let total = problems.len() * cfgs.len();
@@ -195,7 +204,7 @@ pub fn worker(ctx: &RunCtx, shard: usize, of: usize, extra: &Extra) -> Report {
 }
 
 pub fn run(ctx: &RunCtx) -> Report {
-    let total = problems(ctx.tier).len() * configs(ctx.tier).len();
+    let total = problems_for(ctx.tier, scope_of(&ctx.id)).len() * configs(ctx.tier).len();
     // shards of a few hundred solves
     let shards = total.div_ceil(ctx.tier.pick(150, 400)).max(ctx.threads);
     let mut report = run_sharded_report(ctx, "exploration", shards, &[]);
@@ -226,7 +235,7 @@ pub fn replay(ctx: &RunCtx, scenario: &Value) -> Result<Vec<Violation>, String> 
     // the problem is regenerated from its name (search both tiers)
     let found = [Tier::Quick, Tier::Thorough]
         .into_iter()
-        .find_map(|t| problems(t).into_iter().find(|(f, p)| f == family && p.name == name))
+        .find_map(|t| problems_for(t, Scope::Accounting).into_iter().find(|(f, p)| f == family && p.name == name))
         .or_else(|| family_line12().into_iter().find(|p| p.name == name).map(|p| ("line12".to_string(), p)));
     let (family, problem) = found.ok_or("problem not found in the families")?;
     Ok(judge(&family, &problem, &cfg, scope_of(&ctx.id)).violations)
